@@ -18,6 +18,7 @@
 //	N            stree.New(β, cmp)                       <Len>,<height>/<cp>
 //	K:<ks>       stree.New(β, cmp, keys...)              <Len>,<height>/<cp>
 //	C<t>         Clone of tree t                         <Len>,<height>/<cp>
+//	C<t>:<how>   the same, the Clone taken from inside a traversal callback of t (round7.go)
 //	X<t>         Clear                                   <Len>,<height>/<cp>
 //	A<t>:<ks>  P<t>:<ks>  D<t>:<ks>   Add / Replace / Remove of every key of the sequence, in order:
 //	             <res>,<len>,<h>,<c>,<dc>/<cp>/<cp>...   five seqs with one entry per call, taken after
@@ -348,7 +349,10 @@ func (b *bigRun) do(m string) {
 		b.trees = append(b.trees, t)
 		b.unitItem(t)
 	case 'C', 'X':
-		if len(f) != 1 {
+		how := ""
+		if m[0] == 'C' && len(f) == 2 && f[1] != "" && validHow(f[1]) {
+			how = f[1]
+		} else if len(f) != 1 {
 			b.bad = true
 			return
 		}
@@ -357,7 +361,7 @@ func (b *bigRun) do(m string) {
 			return
 		}
 		if m[0] == 'C' {
-			t = t.Clone()
+			t = cloneVia(t, how)
 			b.trees = append(b.trees, t)
 		} else {
 			t.Clear()
